@@ -1059,7 +1059,8 @@ fn gen_c08_workload(r: &mut Prng) -> Plan {
     p
 }
 fn gen_end_cause(r: &mut Prng) -> FaultKind {
-    match r.below(10) {
+    match r.below(11) {
+        10 => FaultKind::AbortTask { ep: r.below(2) },
         0 => FaultKind::PeerClose { to: r.below(2) },
         1 => FaultKind::Cut { from: r.below(2), sink_err: false, src: 1 + r.below(2) as u8, drop_inflight: r.chance(1, 2) },
         2 => FaultKind::Cut { from: r.below(2), sink_err: true, src: 1 + r.below(2) as u8, drop_inflight: r.chance(1, 2) },
@@ -1478,7 +1479,8 @@ impl Family for C16Family {
                 tail = Some(0);
             }
         }
-        let plan = C16Plan { interval_ms: i_ms, timeout_ms: t_req, delays, tail, link: LinkCfg { window: 1 << 20, latency_ms: 0, drop_after_close: r.chance(1, 2), ws_client: r.below(2) as u8, bp_flush: r.chance(1, 2) }, weights: gen_weights(r) };
+        let stuck_sink = r.chance(1, 3);
+        let plan = C16Plan { interval_ms: i_ms, timeout_ms: t_req, delays, tail, link: LinkCfg { window: if stuck_sink { 1 + r.below(2) } else { 1 << 20 }, latency_ms: 0, drop_after_close: r.chance(1, 2), ws_client: r.below(2) as u8, bp_flush: r.chance(1, 2) }, weights: gen_weights(r), stuck_sink, start_delay_ms: if r.chance(1, 4) { *r.pick(&[1u64, i_ms / 2 + 1, 2 * t_req.max(i_ms) + 1]) } else { 0 }, timeout_first: r.chance(1, 4), flood_connects: if r.chance(1, 5) { *r.pick(&[1usize, 5, 6, 9]) } else { 0 } };
         (serde_json::to_value(plan).expect("plan"), seed)
     }
     fn exec(&self, plan: &Value, sched: &Sched, record: bool) -> Outcome {
